@@ -9,7 +9,7 @@ use oal_compiler::definition::{Definition, External};
 use oal_compiler::tree::{Core, NRef, Tree};
 use oal_model::grammar::AbstractSyntaxNode;
 use oal_model::locator::Locator;
-use oal_syntax::parser::{Binding, Declaration, Gram, Identifier, Qualifier, Variable};
+use oal_syntax::parser::{Binding, Declaration, Gram, Identifier, Import, Qualifier, Variable};
 use std::collections::hash_map::Entry;
 use std::collections::HashMap;
 use url::Url;
@@ -220,9 +220,24 @@ fn rename_qualifier<'a>(
     let def_edit = TextEdit::new(def_location.range, new_name.into());
     changes.insert(def_location.uri, vec![def_edit]);
 
-    // Rename all references to the qualifier
     let loc = definition.node().span().unwrap().locator().clone();
     let module = folder.module(&loc).unwrap();
+
+    // Rename the other imports sharing the same qualifier, as they share the same references.
+    let others = module
+        .root()
+        .descendants()
+        .filter_map(Import::cast)
+        .flat_map(|import| import.node().children().filter_map(Qualifier::cast))
+        .filter_map(|other| other.identifier())
+        .filter(|other| *other == definition && other.node().index() != definition.node().index());
+    for other in others {
+        let location = node_location(workspace, other.node())?;
+        let edit = TextEdit::new(location.range, new_name.into());
+        changes.entry(location.uri).or_default().push(edit);
+    }
+
+    // Rename all references to the qualifier
     for var in module.root().descendants().filter_map(Variable::cast) {
         match (var.qualifier(), qualifier.identifier()) {
             (Some(reference), Some(definition)) if reference == definition => {
